@@ -183,6 +183,10 @@ func (e *Variable) Assign(newVal reflect.Value, dataContext IDataContext, memory
 			dataContext.IncrementVariableChangeCount()
 			memory.ResetVariable(e)
 			memory.ResetAliases(e)
+			if e.Variable.ValueNode.IsMap() {
+				// a member of a JSON object was written, possibly a new one: the object's own Len() is no longer valid.
+				memory.ResetVariable(e.Variable)
+			}
 		}
 
 		return err
@@ -212,6 +216,8 @@ func (e *Variable) Assign(newVal reflect.Value, dataContext IDataContext, memory
 			if err == nil {
 				memory.ResetVariable(e)
 				memory.ResetAliases(e)
+				// the write may have added a key: what is known about the map itself (its Len()) is no longer valid.
+				memory.ResetVariable(e.Variable)
 			}
 
 			return err
